@@ -312,6 +312,10 @@ func RunWorker(t *testing.T, checks []Check) {
 	var lastReplay *ReplayFile
 
 	stop := false
+	curFile := os.Getenv("VERIF_CURRENT_FILE")
+	if cp, ok := c.(interface{ CrashProne() bool }); !ok || !cp.CrashProne() {
+		curFile = ""
+	}
 	prop1 := func(rt *rapid.T) {
 		sc := c.Gen(rt, res.Tier)
 		if stop {
@@ -320,6 +324,11 @@ func RunWorker(t *testing.T, checks []Check) {
 		raw, err := json.Marshal(sc)
 		if err != nil {
 			panic(fmt.Sprintf("harness: scenario not serialisable: %v", err))
+		}
+		if curFile != "" {
+			// the code under test may take the whole process down (panic in a goroutine it
+			// started, runtime fatal error): leave the scenario where the coordinator finds it
+			os.WriteFile(curFile, raw, 0o644)
 		}
 		out := safeRun(t, c, sc)
 		shrinking := firstClass != ""
